@@ -58,7 +58,7 @@ func runC16(cfg *vh.Config) error {
 	res := vh.NewResult("C16", cfg.Seed)
 	res.Rule = "generated valid j5s packages (2-6 objects/oneofs/enums with self and mutual recursion, every scalar/array/map/ref field type, 1-2 services x 1-4 methods over all five verbs with 0-2 path parameters of every scalar type, list methods over (recursive) item objects, methods without response, topics, entities) through the real chain compile -> PrintFile -> ReadFSImage -> APIFromImage -> APIFromSource -> J5 JSON -> BuildSwagger -> json.Marshal in crash-isolated workers; the same packages with a mutated service file (renamed service/request/response, removed or custom http rule, broken path); hand-built service names and method descriptors; hand-built source APIs with random cyclic schema graphs, odd paths and list responses. non-trivial = distinct generated input"
 	cf := &vh.CasesFile{
-		Header: "From Coq Require Import String List NArith.\nFrom J5V.lib Require Import Outcome.\nFrom J5V.model Require Import Pipeline PipelineCorr.",
+		Header: "From Coq Require Import String List NArith.\nFrom J5V.lib Require Import Outcome.\nFrom J5V.model Require Import Pipeline PipelineEntity PipelineCorr.",
 		Type:   "c16case",
 		Check:  "c16_check",
 	}
@@ -176,7 +176,7 @@ func runC16(cfg *vh.Config) error {
 			continue
 		}
 		sk, ck, wk := stageKind(r.status("source")), stageKind(r.status("client")), stageKind(r.status("swagger"))
-		term := fmt.Sprintf("CChain %s\n    %d %s\n    %d %s %s %d", coqImg(r.Img), sk, coqSrcObs(r.Src), ck, coqMethodObs(r.Methods), coqKeys(r.Schemas), wk)
+		term := fmt.Sprintf("CChainE %s %s\n    %d %s\n    %d %s %s %d", coqAnns(r.Img), coqImg(r.Img), sk, coqSrcObs(r.Src), ck, coqMethodObs(r.Methods), coqKeys(r.Schemas), wk)
 		addCase(stream, term, input, map[string]any{"stages": r.Stages, "methods": r.Methods, "schemas": r.Schemas})
 		if pks[i].mut == nil && r.status("source") == "ok" {
 			decl, extra := coqDeclPackage(p)
